@@ -11,7 +11,7 @@ for d in seeded/*/; do
   id=$(basename $d)
   [ -n "$only" ] && [[ "$id" != $only* ]] && continue
   props=$(python3 -c "import json;print(' '.join(json.load(open('$d/meta.json'))['detected_by']))")
-  git -C $R apply "$d/patch.diff" 2>/dev/null || { echo "$id PATCH-DOES-NOT-APPLY"; git -C $R checkout -- . ; continue; }
+  git -C $R apply "$(pwd)/$d/patch.diff" 2>/dev/null || { echo "$id PATCH-DOES-NOT-APPLY"; git -C $R checkout -- . ; continue; }
   line="$id"
   for p in $props; do
     out=$(env $X OPSIM_EVIDENCE_DIR=/tmp/seedeval-evidence ./check $p quick 2>&1); rc=$?
